@@ -6,12 +6,19 @@
 //!   (rename-resolve ENV ROOT SEED)          search: resolution is invariant under renaming
 //!   (rename-compile FORMAT ENV ROOT SEED)   search: compiled bytes are invariant under renaming
 //!   (excess-args ENV ROOT)                  search: resolve + type check never crash
+//!   (ribs ENV)                              correspondence: `Defs::initial_ribs` (order, kinds, contents)
+//!   (ref-resolve ENV ROOT)                  search: resolution vs the independent reference resolver (c10_ref.rs)
+//!   (ref-compile FORMAT ENV ROOT)           search: the same inside a real compile (sprite / script / sub names exist)
 //!
 //!   ENV  := (env (langs L..) (funcs L) (scripts L) (reg (L NAME N)..) (ins (L NAME N)..)
-//!                (enums E..) (enum (E NAME)..) (builtin NAME..))
+//!                (enums E..) (enum (E NAME)..) (builtin NAME..) [(sigs (L OPCODE COLOR..)..)])
+//!         `sigs`: the instructions that have a signature, with the enum (or `-`) each parameter expects
+//!         (absent: 900 (E1), 901 (E2), 902 (-) and every aliased opcode (-), one parameter each, in every language)
 //!   ROOT := (file STMT..) | (blk STMT..)
 //!   STMT := (expr E) | (assign E E) | (ret E) | (decl (ID NAME E?)..) | (block STMT..) | (loop STMT..)
-//!         | (while E STMT..) | (dowhile E STMT..) | (times E STMT..)
+//!         | (while E STMT..) | (dowhile E STMT..) | (times E STMT..) | (timesc (v ID NAME) E STMT..)
+//!         | (funcdecl QUAL ID NAME ((ID NAME)..))             a declaration without body
+//!         | (nscript ID NAME STMT..) | (sprites (ID NAME)..)  compile cases only (ANM): named script, entry with sprites
 //!         | (if (E STMT..).. [(else STMT..)])
 //!         | (func QUAL ID NAME ((ID NAME)..) STMT..) | (const (ID NAME E)..) | (script STMT..)
 //!   E    := (v ID NAME) | (q ID ENUM NAME) | (f ID NAME E..) | (add E E) | (ins N COLOR E..) | (lit)
@@ -38,7 +45,7 @@ fn lang_key(s: &str) -> LanguageKey {
     match s { "ecl" => LanguageKey::Ecl, "anm" => LanguageKey::Anm, "std" => LanguageKey::Std, "msg" => LanguageKey::Msg, _ => panic!("bad language {s}") }
 }
 fn lang_name(l: LanguageKey) -> &'static str {
-    match l { LanguageKey::Ecl => "ecl", LanguageKey::Anm => "anm", LanguageKey::Std => "std", LanguageKey::Msg => "msg", _ => "other" }
+    match l { LanguageKey::Ecl => "ecl", LanguageKey::Anm => "anm", LanguageKey::Std => "std", LanguageKey::Msg => "msg", LanguageKey::Timeline => "timeline", LanguageKey::End => "end", _ => "other" }
 }
 
 // ---------------------------------------------------------------------------------------------
@@ -50,6 +57,18 @@ struct Env {
     reg: Vec<(String, String, i64)>,
     ins: Vec<(String, String, i64)>,
     enums: Vec<(String, String)>,
+    /// (language, opcode, enum expected by each parameter or "-") of every instruction with a
+    /// signature; `None`: the older case format (900-902 and every aliased opcode have one parameter)
+    sigs: Option<Vec<(String, i64, Vec<String>)>>,
+}
+
+/// MSG opcodes are bytes: the raw instructions 900-902 of the other languages are 200-202 there
+fn opcode_in(lang: &str, op: i64) -> i64 { if lang == "msg" && op >= 900 { op - 700 } else { op } }
+
+fn env_langs(env: &Env) -> Vec<&'static str> {
+    let mut v = LANGS.to_vec();
+    if env.funcs == "msg" || env.scripts == "msg" { v.push("msg"); }
+    v
 }
 
 fn section<'a>(env: &'a Sexp, name: &str) -> &'a [Sexp] {
@@ -64,13 +83,14 @@ fn parse_env(env: &Sexp) -> Env {
         reg: section(env, "reg").iter().map(triple).collect(),
         ins: section(env, "ins").iter().map(triple).collect(),
         enums: section(env, "enum").iter().map(|s| { let v = s.as_list(); (v[0].as_atom().to_string(), v[1].as_atom().to_string()) }).collect(),
+        sigs: if env.args().iter().any(|s| s.head() == Some("sigs")) { Some(section(env, "sigs").iter().map(|s| { let v = s.as_list(); (v[0].as_atom().to_string(), v[1].as_i64(), v[2..].iter().map(|c| c.as_atom().to_string()).collect()) }).collect()) } else { None },
     }
 }
 
 /// one user mapfile per language; the enums go into the first one
 fn mapfiles(env: &Env) -> Vec<String> {
     let mut out = vec![];
-    for (i, &l) in LANGS.iter().enumerate() {
+    for (i, &l) in env_langs(env).iter().enumerate() {
         let mut m = format!("!{l}map\n!gvar_names\n");
         for (_, n, r) in env.reg.iter().filter(|x| x.0 == l) { m.push_str(&format!("{r} {n}\n")); }
         m.push_str("!gvar_types\n");
@@ -79,12 +99,24 @@ fn mapfiles(env: &Env) -> Vec<String> {
         m.push_str("!ins_names\n");
         for (_, n, r) in env.ins.iter().filter(|x| x.0 == l) { m.push_str(&format!("{r} {n}\n")); }
         m.push_str("!ins_signatures\n");
-        for &(op, color) in SIGS {
-            if color == "-" { m.push_str(&format!("{op} S\n")); } else { m.push_str(&format!("{op} S(enum=\"{color}\")\n")); }
+        match &env.sigs {
+            None => {
+                for &(op, color) in SIGS {
+                    let op = opcode_in(l, op);
+                    if color == "-" { m.push_str(&format!("{op} S\n")); } else { m.push_str(&format!("{op} S(enum=\"{color}\")\n")); }
+                }
+                // aliased instructions take one plain argument
+                let mut seen = vec![];
+                for (_, _, r) in env.ins.iter().filter(|x| x.0 == l) { if !seen.contains(r) { seen.push(*r); m.push_str(&format!("{r} S\n")); } }
+            },
+            Some(sigs) => {
+                // exactly the listed instructions have a signature
+                for (_, op, colors) in sigs.iter().filter(|x| x.0 == l) {
+                    let params: String = colors.iter().map(|c| if c == "-" { "S".to_string() } else { format!("S(enum=\"{c}\")") }).collect();
+                    m.push_str(&format!("{op} {params}\n"));
+                }
+            },
         }
-        // aliased instructions take one plain argument
-        let mut seen = vec![];
-        for (_, _, r) in env.ins.iter().filter(|x| x.0 == l) { if !seen.contains(r) { seen.push(*r); m.push_str(&format!("{r} S\n")); } }
         if i == 0 {
             for e in ["E1", "E2"] {
                 m.push_str(&format!("!enum(name=\"{e}\")\n"));
@@ -110,6 +142,12 @@ struct Render<'a> {
     scripts: usize,
     /// functions are rendered `void name(..)` (old ECL subs) instead of `int name(..)`
     void_funcs: bool,
+    /// declarations that are not resolvable identifiers of the AST (sprite names, script names):
+    /// occurrence id -> (kind, name)
+    ext: BTreeMap<usize, (&'static str, String)>,
+    /// names of all scripts in order (MSG needs them in its `meta` table)
+    script_names: Vec<String>,
+    msg: bool,
 }
 
 impl Render<'_> {
@@ -122,6 +160,17 @@ impl Render<'_> {
         let text = (self.rename)(id, name.as_atom());
         self.put(&text);
         self.put("\n");
+    }
+    /// a declaring name that the AST holds as a plain identifier
+    fn ext_ident(&mut self, id: &Sexp, name: &Sexp, kind: &'static str) -> String {
+        let id = id.as_usize();
+        self.put("\n");
+        self.id_of_line.insert(self.line + 1, id);
+        self.ext.insert(id, (kind, name.as_atom().to_string()));
+        let text = (self.rename)(id, name.as_atom());
+        self.put(&text);
+        self.put("\n");
+        text
     }
     fn expr(&mut self, e: &Sexp) {
         let a = e.args();
@@ -144,7 +193,7 @@ impl Render<'_> {
             },
             Some("add") => { self.put("("); self.expr(&a[0]); self.put(" + "); self.expr(&a[1]); self.put(")"); },
             Some("ins") => {
-                self.put(&format!("ins_{}(", a[0].as_i64()));
+                self.put(&format!("ins_{}(", opcode_in(if self.msg { "msg" } else { "" }, a[0].as_i64())));
                 for (i, x) in a[2..].iter().enumerate() { if i > 0 { self.put(", "); } self.expr(x); }
                 self.put(")");
             },
@@ -173,6 +222,7 @@ impl Render<'_> {
             Some("while") => { self.put("while ("); self.expr(&a[0]); self.put(") "); self.body(&a[1..]); },
             Some("dowhile") => { self.put("do "); self.body(&a[1..]); self.put("while ("); self.expr(&a[0]); self.put(");\n"); },
             Some("times") => { self.put("times("); self.expr(&a[0]); self.put(") "); self.body(&a[1..]); },
+            Some("timesc") => { self.put("times("); self.expr(&a[0]); self.put(" = "); self.expr(&a[1]); self.put(") "); self.body(&a[2..]); },
             Some("if") => {
                 let mut first = true;
                 for b in a {
@@ -199,22 +249,53 @@ impl Render<'_> {
                 self.put(") ");
                 self.body(&a[4..]);
             },
+            Some("funcdecl") => {
+                match a[0].as_atom() { "const" => self.put("const "), "inline" => self.put("inline "), _ => {} }
+                self.put(if self.void_funcs { "void " } else { "int " });
+                self.ident(&a[1], &a[2], true, true);
+                self.put("(");
+                for (i, p) in a[3].as_list().iter().enumerate() {
+                    let p = p.as_list();
+                    if i > 0 { self.put(", "); }
+                    self.put("int ");
+                    self.ident(&p[0], &p[1], false, true);
+                }
+                self.put(");\n");
+            },
             Some("const") => { self.put("const int "); self.decl_vars(a, true); self.put(";\n"); },
-            Some("script") => { let n = self.scripts; self.scripts += 1; self.put(&format!("script s{n} ")); self.body(a); },
+            Some("script") => { let n = self.scripts; self.scripts += 1; self.script_names.push(format!("s{n}")); self.put(&format!("script s{n} ")); self.body(a); },
+            Some("nscript") => {
+                self.put("script ");
+                let text = self.ext_ident(&a[0], &a[1], "script-name");
+                self.script_names.push(text);
+                self.body(&a[2..]);
+            },
+            Some("sprites") => {
+                self.put("entry { path: \"b.png\", has_data: 0, img_width: 16, img_height: 16, img_format: 3, offset_x: 0, offset_y: 0, colorkey: 0, memory_priority: 0, low_res_scale: 0, sprites: {\n");
+                for v in a { let v = v.as_list(); self.ext_ident(&v[0], &v[1], "sprite"); self.put(": {x: 0.0, y: 0.0, w: 1.0, h: 1.0},\n"); }
+                self.put("} }\n");
+            },
             h => panic!("bad stmt {h:?}"),
         }
     }
 }
 
-struct Rendered { text: String, id_of_line: HashMap<usize, usize>, occ: BTreeMap<usize, (bool, bool, String)>, is_file: bool }
+struct Rendered { text: String, id_of_line: HashMap<usize, usize>, occ: BTreeMap<usize, (bool, bool, String)>, ext: BTreeMap<usize, (&'static str, String)>, is_file: bool }
 
 fn render(root: &Sexp, prelude: &str, rename: &dyn Fn(usize, &str) -> String) -> Rendered {
     let void_funcs = prelude == ECL_PRELUDE;
-    let mut r = Render { out: String::new(), line: 0, id_of_line: HashMap::new(), occ: BTreeMap::new(), rename, scripts: 0, void_funcs };
+    let msg = prelude == MSG_PRELUDE;
+    let mut r = Render { out: String::new(), line: 0, id_of_line: HashMap::new(), occ: BTreeMap::new(), rename, scripts: 0, void_funcs, ext: BTreeMap::new(), script_names: vec![], msg };
     r.put(prelude);
     let is_file = root.head() == Some("file");
     if is_file { r.stmts(root.args()); } else { r.body(root.args()); }
-    Rendered { text: r.out, id_of_line: r.id_of_line, occ: r.occ, is_file }
+    if msg {
+        // every script is an entry of the table
+        let entries: Vec<String> = r.script_names.iter().enumerate().map(|(i, n)| format!("{i}: {{script: \"{n}\"}}")).collect();
+        let table = format!("meta {{ table: {{{}}} }}\n", entries.join(", "));
+        r.put(&table);
+    }
+    Rendered { text: r.out, id_of_line: r.id_of_line, occ: r.occ, ext: r.ext, is_file }
 }
 
 // ---------------------------------------------------------------------------------------------
@@ -294,7 +375,6 @@ fn resolve_impl(env: &Env, r: &Rendered) -> Resolved {
     let mut truth = scope.truth();
     for m in mapfiles(env) { truth.apply_mapfile_str(&m, truth::Game::Th12).expect("generated mapfile rejected"); }
 
-    enum Root { File(truth::Sp<ast::ScriptFile>), Block(truth::Sp<ast::Block>) }
     let parsed = if r.is_file { truth.parse::<ast::ScriptFile>("<input>", r.text.as_bytes()).map(Root::File) }
         else { truth.parse::<ast::Block>("<input>", r.text.as_bytes()).map(Root::Block) };
     let mut root = match parsed {
@@ -311,9 +391,20 @@ fn resolve_impl(env: &Env, r: &Rendered) -> Resolved {
     let status = match &root { Root::File(f) => truth::passes::resolution::resolve_names(f, ctx), Root::Block(b) => truth::passes::resolution::resolve_names(b, ctx) };
     let failed = match status { Ok(()) => false, Err(e) => { e.ignore(); true } };
 
+    observe(&mut truth, &mut root, r, failed)
+}
+
+enum Root { File(truth::Sp<ast::ScriptFile>), Block(truth::Sp<ast::Block>) }
+
+/// the enums whose consts a use can resolve to: the two of the generated mapfile and the builtin ones
+const CLASSIFIED_ENUMS: &[&str] = &["E1", "E2", "bool", "AnmSprite", "AnmScript", "EclSub", "MsgScript", "BitmapColorFormat"];
+
+/// What the `Resolutions` table and the diagnostics say about every identifier occurrence of the
+/// program, after name resolution has run on `root` (directly, or inside a compile).
+fn observe(truth: &mut truth::Truth<'_>, root: &mut Root, r: &Rendered, failed: bool) -> Resolved {
     // identifier occurrences in textual order
     let mut marker = Marker { seen: vec![] };
-    let text = match &mut root {
+    let text = match root {
         Root::File(f) => { ast::VisitMut::visit_file(&mut marker, &mut f.value); truth::fmt::stringify(&*f) },
         Root::Block(b) => { ast::VisitMut::visit_root_block(&mut marker, &mut b.value); truth::fmt::stringify(&*b) },
     };
@@ -348,7 +439,7 @@ fn resolve_impl(env: &Env, r: &Rendered) -> Resolved {
         let idx = Sexp::int(id as i64);
         if *is_decl {
             let ok_self = def.map(|d| decl_of_def.get(&d) == Some(&id)).unwrap_or(false);
-            entries.push(Sexp::list(vec![idx.clone(), Sexp::atom(if ok_self { "self" } else { "decl-not-self-resolved" })]));
+            entries.push(Sexp::list(vec![idx.clone(), Sexp::atom(if ok_self { "self" } else if def.is_none() && errs.is_empty() { "unresolved-without-diagnostic" } else { "decl-not-self-resolved" })]));
             bound_to.insert(id, Some(id));
             for e in errs {
                 any_error = true;
@@ -361,7 +452,9 @@ fn resolve_impl(env: &Env, r: &Rendered) -> Resolved {
         }
         let target = match def {
             None => {
-                any_error = true;
+                // (no definition and no diagnostic: an argument beyond the callee's parameter count is
+                //  never looked at; that alone is not an error)
+                if !errs.is_empty() { any_error = true; }
                 bound_to.insert(id, None);
                 match errs.len() {
                     0 => Sexp::atom("unresolved-without-diagnostic"),
@@ -380,7 +473,7 @@ fn resolve_impl(env: &Env, r: &Rendered) -> Resolved {
                     else {
                         let ident = Ident::new_system(name).expect("ascii");
                         let mut found = None;
-                        for e in ["E1", "E2", "bool"] {
+                        for &e in CLASSIFIED_ENUMS {
                             let en = Ident::new_system(e).expect("ascii");
                             if ctx.defs.enum_const_def_id(&en, &ident) == Some(d) { found = Some(e); }
                         }
@@ -405,6 +498,36 @@ fn resolve_impl(env: &Env, r: &Rendered) -> Resolved {
     Resolved { result: Sexp::app(if any_error { "errors" } else { "ok" }, entries), bound_to }
 }
 
+/// The same observation inside a real compile (`truanm` / `truecl` / `trumsg compile`): the front
+/// end of the format declares sprite / script / sub names as enum consts, paints languages and
+/// runs `resolve_names` itself; the table is read afterwards.  Also returns the written bytes.
+fn observe_compile(fmt: crate::tc::Format, env: &Env, r: &Rendered) -> (Resolved, Option<Vec<u8>>, String) {
+    let game = game_of(fmt);
+    let mut scope = truth::Builder::new().capture_diagnostics(true).build();
+    let mut truth = scope.truth();
+    let bad = |what: String| Resolved { result: Sexp::app("err", vec![Sexp::str(what)]), bound_to: BTreeMap::new() };
+    for &language in fmt.languages() {
+        let core = truth::verif_hooks::core_mapfile(truth.ctx().emitter, game, language);
+        truth.apply_mapfile(&core, game).expect("failed to apply core mapfile!?");
+    }
+    for m in mapfiles(env) {
+        if let Err(e) = truth.apply_mapfile_str(&m, game) { e.ignore(); let d = truth.get_captured_diagnostics().unwrap_or_default(); return (bad(format!("mapfile: {}", crate::util::diag_class(&d))), None, d); }
+    }
+    let script = match truth.parse::<ast::ScriptFile>("<input>", r.text.as_bytes()) {
+        Ok(x) => x,
+        Err(e) => { e.ignore(); let d = truth.get_captured_diagnostics().unwrap_or_default(); return (bad(format!("parse: {}", crate::util::diag_class(&d))), None, d); },
+    };
+    let bytes = match crate::tc::compile_ast(&mut truth, fmt, game, &script.value).and_then(|c| crate::tc::write_bytes(&mut truth, fmt, game, &c)) {
+        Ok(b) => Some(b),
+        Err(e) => { e.ignore(); None },
+    };
+    let diagnostics = truth.get_captured_diagnostics().unwrap_or_default();
+    let mut root = Root::File(script);
+    (observe(&mut truth, &mut root, r, bytes.is_none()), bytes, diagnostics)
+}
+
+fn game_of(fmt: crate::tc::Format) -> truth::Game { if fmt == crate::tc::Format::Ecl { truth::Game::Th07 } else { truth::Game::Th12 } }
+
 fn resolve_case(env: &Sexp, root: &Sexp) -> Sexp {
     let env = parse_env(env);
     let r = render(root, "", &|_, n| n.to_string());
@@ -412,11 +535,230 @@ fn resolve_case(env: &Sexp, root: &Sexp) -> Sexp {
 }
 
 // ---------------------------------------------------------------------------------------------
+// the global ribs
+
+/// `Defs::initial_ribs()` as the two stacks `RibStacks::from_iter` builds from it (bottom first,
+/// without the dummy root), each rib with its kind and what it holds for the names of the case.
+/// Mapfile ribs that hold none of these names are left out and neighbouring mapfile ribs are put
+/// in the order of their language names: only the rib of the language of a use can answer, so
+/// their mutual order means nothing; where they stand relative to the const ribs does.
+/// (`truth::resolve` is a private module: kinds are read off their `Debug` text.)
+fn ribs_case(env: &Sexp) -> Sexp {
+    let envs = env;
+    let env = parse_env(env);
+    let mut scope = truth::Builder::new().capture_diagnostics(true).build();
+    let mut truth = scope.truth();
+    for m in mapfiles(&env) { truth.apply_mapfile_str(&m, truth::Game::Th12).expect("generated mapfile rejected"); }
+    let mut names: Vec<String> = env.reg.iter().map(|x| x.1.clone()).chain(env.ins.iter().map(|x| x.1.clone())).chain(env.enums.iter().map(|x| x.1.clone()))
+        .chain(section(envs, "builtin").iter().map(|s| s.as_atom().to_string())).collect();
+    names.sort(); names.dedup();
+    let ctx = truth.ctx();
+    let dummy = ctx.defs.enum_const_dummy_def_id();
+    let mut ribs = ctx.defs.initial_ribs();
+    // (namespace, kind word, language, entries)
+    let mut stacks: BTreeMap<&'static str, Vec<(String, String, Vec<Sexp>)>> = BTreeMap::new();
+    for rib in ribs.iter_mut() {
+        let ns = match format!("{:?}", rib.ns).as_str() { "Vars" => "vars", "Funcs" => "funcs", _ => "other-namespace" };
+        let kind_text = format!("{:?}", rib.kind);
+        let (kind, lang) = if kind_text.starts_with("Mapfile") {
+            let l = kind_text.split("language:").nth(1).unwrap_or("?").trim().trim_end_matches('}').trim().to_lowercase();
+            ("mapfile".to_string(), l)
+        } else if kind_text == "EnumConsts" { ("enum-consts".to_string(), String::new()) }
+        else if kind_text == "BuiltinConsts" { ("builtin-consts".to_string(), String::new()) }
+        else { (format!("other:{kind_text}"), String::new()) };
+        let mut entries = vec![];
+        for n in &names {
+            let ident = Ident::new_system(n).expect("ascii");
+            if let Some(e) = rib.get(&ident) {
+                let d = e.def_id;
+                let def = if d == dummy { Sexp::atom("enum-dummy") }
+                    else if ns == "funcs" { match ctx.defs.func_opcode(d) { Some((l, op)) => Sexp::app("ins", vec![Sexp::atom(lang_name(l)), Sexp::int(op as i64)]), None => Sexp::atom("unknown-func-def") } }
+                    else if let Some((l, reg)) = ctx.defs.var_reg(d) { Sexp::app("reg", vec![Sexp::atom(lang_name(l)), Sexp::int(reg.0 as i64)]) }
+                    else if matches!(ctx.defs.var_const_expr(d), Some((truth::context::defs::ConstExprLoc::Builtin, _))) { Sexp::app("builtin", vec![Sexp::atom(n.clone())]) }
+                    else { Sexp::atom("unknown-def") };
+                entries.push(Sexp::list(vec![Sexp::atom(n.clone()), def]));
+            }
+        }
+        if kind == "mapfile" && entries.is_empty() { continue; }
+        stacks.entry(ns).or_default().push((kind, lang, entries));
+    }
+    let mut out = vec![];
+    for ns in ["vars", "funcs"] {
+        let mut ribs = stacks.remove(ns).unwrap_or_default();
+        // neighbouring mapfile ribs in the order of their languages
+        let mut i = 0;
+        while i < ribs.len() {
+            let mut j = i;
+            while j < ribs.len() && ribs[j].0 == "mapfile" { j += 1; }
+            ribs[i..j].sort_by(|a, b| a.1.cmp(&b.1));
+            i = j.max(i + 1);
+        }
+        let items: Vec<Sexp> = ribs.into_iter().map(|(k, l, e)| { let mut v = vec![]; if k == "mapfile" { v.push(Sexp::atom(l)); } v.extend(e); Sexp::app(&k, v) }).collect();
+        out.push(Sexp::app(ns, items));
+    }
+    for (ns, _) in stacks { out.push(Sexp::app("unexpected-namespace", vec![Sexp::atom(ns)])); }
+    Sexp::app("ribs", out)
+}
+
+// ---------------------------------------------------------------------------------------------
+// the reference resolver as an oracle
+
+use super::c10_ref::{self as reference, DKind, Target};
+
+/// The languages of functions and scripts: what the case says when `resolve_names` is run on its
+/// own, what the compiler of the format paints (`assign_languages`) inside a real compile.
+fn ref_options(env: &Env, fmt: Option<crate::tc::Format>) -> reference::Options {
+    use crate::tc::Format;
+    let (funcs, scripts) = match fmt {
+        None => (env.funcs.clone(), env.scripts.clone()),
+        Some(Format::Ecl) => ("ecl".to_string(), "timeline".to_string()),
+        Some(f) => (f.name().to_string(), f.name().to_string()),
+    };
+    reference::Options { funcs_lang: funcs, scripts_lang: scripts, subs_are_consts: fmt == Some(Format::Ecl) }
+}
+
+fn try_atom(x: &Sexp) -> Option<&str> { match x { Sexp::Atom(s) => Some(s), _ => None } }
+
+/// what the implementation chose for a use, as a word for the failure signature
+fn chosen_kind(x: &Sexp, refr: &reference::Reference) -> String {
+    match x.head() {
+        Some("d") => refr.decls.get(&x.args()[0].as_usize()).map(|d| d.kind.name().to_string()).unwrap_or_else(|| "declaration".into()),
+        Some("reg") => "register-alias".into(),
+        Some("ins") => "instruction-alias".into(),
+        Some("enum") => match x.args()[0].as_atom() { "AnmSprite" => "sprite".into(), "AnmScript" => "script-name".into(), "EclSub" => "sub-name".into(), "MsgScript" => "script-name".into(), _ => "enum-const".into() },
+        Some("builtin") => "builtin-const".into(),
+        Some("err") | Some("errs") => "error".into(),
+        _ => "nothing".into(),
+    }
+}
+
+/// Compares what the implementation did with the answers of the reference resolver, and reports
+/// only what the property text forbids.  Nothing is judged when name resolution did not run at all
+/// (a compile may stop before it); `check_redecl`: it ran on its own, so every redeclaration must
+/// have been diagnosed.
+fn ref_judge(root: &Sexp, refr: &reference::Reference, res: &Resolved, text: &str, check_redecl: bool) -> Option<Sexp> {
+    if !matches!(res.result.head(), Some("ok") | Some("errors")) { return None; }
+    // id -> primary entry, ids with a redefinition diagnostic
+    let mut primary: BTreeMap<usize, Sexp> = BTreeMap::new();
+    let mut redef: Vec<usize> = vec![];
+    for e in res.result.args() {
+        let Sexp::List(v) = e else { continue };
+        if v.len() < 2 { continue; }
+        let Some(id) = try_atom(&v[0]).and_then(|a| a.parse::<usize>().ok()) else { continue };
+        if v.len() == 3 && try_atom(&v[1]) == Some("redef") { redef.push(id); continue; }
+        if v[1].head() == Some("resolved-with-error") { continue; }
+        primary.entry(id).or_insert_with(|| v[1].clone());
+    }
+    // did name resolution run at all?  (every declaration it reaches resolves to itself)
+    let anything = primary.values().any(|x| try_atom(x) == Some("self") || matches!(x.head(), Some("d") | Some("reg") | Some("ins") | Some("enum") | Some("builtin")))
+        || primary.values().any(|x| matches!(x.head(), Some("err") | Some("errs")));
+    if !anything { return None; }
+    let detail = |what: String| format!("{what}; program {:?}; tree {root}", text.replace('\n', " "));
+    for (&id, u) in &refr.uses {
+        let Some(x) = primary.get(&id) else { continue };
+        let use_kind = if u.space == reference::Space::Call { "call" } else { "var-use" };
+        let unresolved = try_atom(x) == Some("unresolved-without-diagnostic");
+        if unresolved {
+            // never looked at: allowed only for an argument beyond the callee's parameter count
+            match refr.beyond_arity(id) {
+                Some(false) if u.target != Target::Qualified => return Some(fail(format!("use-not-resolved-and-not-diagnosed {use_kind}"), detail(format!("occurrence {id} '{}' got neither a definition nor a diagnostic", u.name)))),
+                _ => continue,
+            }
+        }
+        if refr.beyond_arity(id) == Some(true) { continue; }
+        match &u.target {
+            Target::Decl(j) => {
+                let d = &refr.decls[j];
+                let ok = match d.kind {
+                    DKind::Sprite => x.head() == Some("enum") && x.args()[0].as_atom() == "AnmSprite" && x.args()[1].as_atom() == u.name,
+                    DKind::ScriptName => x.head() == Some("enum") && x.args()[0].as_atom() == "AnmScript" && x.args()[1].as_atom() == u.name,
+                    _ => x.head() == Some("d") && x.args()[0].as_usize() == *j,
+                };
+                // sprite / script / sub names are consts of builtin enums: where a mapfile enum has a const
+                // of the same name, the documented outcome is the enum rule (the enum the parameter expects,
+                // else "ambiguous enum const"), which the property text does not speak about
+                let enum_face = matches!(d.kind, DKind::Sprite | DKind::ScriptName) || (d.kind == DKind::Func && u.space == reference::Space::Var);
+                let enum_rule = enum_face && ((x.head() == Some("enum") && x.args()[1].as_atom() == u.name)
+                    || (x.head() == Some("err") && x.args()[0].as_atom() == "ambiguous enum const"));
+                if !ok && !enum_rule {
+                    let mut chose = chosen_kind(x, refr);
+                    if x.head() == Some("d") && chose == d.kind.name() { chose = format!("other-{chose}"); }
+                    return Some(fail(format!("use-resolves-to-wrong-declaration {use_kind} chose={chose} innermost-visible={}", d.kind.name()),
+                        detail(format!("occurrence {id} '{}': the innermost visible declaration is occurrence {j} ({}), the implementation says {x}", u.name, d.kind.name()))));
+                }
+            },
+            Target::Hidden(j) => {
+                if x.head() == Some("d") && x.args()[0].as_usize() == *j {
+                    return Some(fail(format!("use-resolves-to-wrong-declaration {use_kind} chose={}-of-enclosing-function innermost-visible=none", refr.decls[j].kind.name()),
+                        detail(format!("occurrence {id} '{}' is inside a nested function / const and resolves to the {} at occurrence {j} outside it", u.name, refr.decls[j].kind.name()))));
+                }
+            },
+            Target::Outside => {
+                if x.head() == Some("d") {
+                    let k = x.args()[0].as_usize();
+                    return Some(fail(format!("use-resolves-to-wrong-declaration {use_kind} chose={}-not-in-scope innermost-visible=none", chosen_kind(x, refr)),
+                        detail(format!("occurrence {id} '{}': no declaration of the program is visible there, the implementation says occurrence {k}", u.name))));
+                }
+                if matches!(x.head(), Some("reg") | Some("ins")) && u.lang.as_deref() != Some(x.args()[0].as_atom()) {
+                    return Some(fail(format!("use-resolves-to-wrong-declaration {use_kind} chose={}-of-another-language innermost-visible=none", chosen_kind(x, refr)),
+                        detail(format!("occurrence {id} '{}' in {:?} code resolves to {x}", u.name, u.lang))));
+                }
+            },
+            Target::Undetermined(cands) => {
+                // whatever it is, it must be one of the competing declarations or an error
+                if x.head() == Some("d") && !cands.contains(&x.args()[0].as_usize()) {
+                    return Some(fail(format!("use-resolves-to-wrong-declaration {use_kind} chose={}-not-in-scope innermost-visible=several", chosen_kind(x, refr)),
+                        detail(format!("occurrence {id} '{}': candidates {cands:?}, the implementation says {x}", u.name))));
+                }
+            },
+            Target::Qualified => {
+                if x.head() == Some("d") {
+                    return Some(fail(format!("use-resolves-to-wrong-declaration qualified-enum-const chose={} innermost-visible=none", chosen_kind(x, refr)), detail(format!("occurrence {id} 'E.{}' resolves to {x}", u.name))));
+                }
+            },
+        }
+    }
+    if check_redecl {
+        for id in &refr.redeclared {
+            if primary.contains_key(id) && !redef.contains(id) {
+                let d = &refr.decls[id];
+                return Some(fail(format!("redeclaration-in-one-block-not-reported {}", d.kind.name()), detail(format!("occurrence {id} '{}' repeats a {} of its own block", d.name, d.kind.name()))));
+            }
+        }
+    }
+    None
+}
+
+fn ref_resolve(env: &Sexp, root: &Sexp) -> Sexp {
+    let env = parse_env(env);
+    let r = render(root, "", &|_, n| n.to_string());
+    let res = resolve_impl(&env, &r);
+    let refr = reference::resolve(root, &ref_options(&env, None));
+    if let Some(f) = ref_judge(root, &refr, &res, &r.text, true) { return f; }
+    let judged = refr.uses.values().filter(|u| matches!(u.target, Target::Decl(_) | Target::Hidden(_))).count();
+    Sexp::app(if res.result.head() == Some("ok") { "pass-valid-program" } else { "pass-program-with-errors" }, vec![Sexp::int(judged as i64)])
+}
+
+fn prelude_of(fmt: crate::tc::Format) -> &'static str {
+    match fmt { crate::tc::Format::Anm => ANM_PRELUDE, crate::tc::Format::Msg => MSG_PRELUDE, _ => ECL_PRELUDE }
+}
+
+fn ref_compile(format: &str, env: &Sexp, root: &Sexp) -> Sexp {
+    let env = parse_env(env);
+    let fmt = crate::tc::Format::from_name(format);
+    let r = render(root, prelude_of(fmt), &|_, n| n.to_string());
+    let (res, bytes, _) = observe_compile(fmt, &env, &r);
+    let refr = reference::resolve(root, &ref_options(&env, Some(fmt)));
+    if let Some(f) = ref_judge(root, &refr, &res, &r.text, false) { return f; }
+    Sexp::app(if bytes.is_some() { "pass-compiled" } else { "pass-rejected" }, vec![res.result.head().map(Sexp::atom).unwrap_or(Sexp::atom("?"))])
+}
+
+// ---------------------------------------------------------------------------------------------
 // renaming
 
 /// injective map from the names that occur in the program to fresh names
 fn fresh_names(r: &Rendered, rng: &mut Rng) -> HashMap<String, String> {
-    let mut names: Vec<String> = r.occ.values().map(|x| x.2.clone()).collect();
+    let mut names: Vec<String> = r.occ.values().map(|x| x.2.clone()).chain(r.ext.values().map(|x| x.1.clone())).collect();
     names.sort(); names.dedup();
     let mut ks: Vec<usize> = (0..names.len() + 3).collect();
     rng.shuffle(&mut ks);
@@ -469,12 +811,14 @@ fn rename_resolve(env: &Sexp, root: &Sexp, seed: u64) -> Sexp {
     Sexp::app(if has_error { "pass-program-with-errors" } else { "pass-valid-program" }, vec![])
 }
 
-const ANM_PRELUDE: &str = "entry { path: \"a.png\", has_data: false, img_width: 16, img_height: 16, img_format: 3, offset_x: 0, offset_y: 0, colorkey: 0, memory_priority: 0, low_res_scale: false, sprites: {} }\n";
+/// (`has_data: 0` rather than `false`: the values of an entry are expressions, and a script may declare a sprite named `false`)
+const ANM_PRELUDE: &str = "entry { path: \"a.png\", has_data: 0, img_width: 16, img_height: 16, img_format: 3, offset_x: 0, offset_y: 0, colorkey: 0, memory_priority: 0, low_res_scale: 0, sprites: {} }\n";
 const ECL_PRELUDE: &str = "script timeline0 {}\n";
+/// (the `meta` table of a MSG file is written after the scripts, see `render`)
+const MSG_PRELUDE: &str = "\n";
 
 fn compile_text(format: crate::tc::Format, env: &Env, text: &str) -> (Option<Vec<u8>>, String) {
-    let game = if format == crate::tc::Format::Ecl { truth::Game::Th07 } else { truth::Game::Th12 };
-    let o = crate::tc::compile(format, game, &mapfiles(env), text.as_bytes());
+    let o = crate::tc::compile(format, game_of(format), &mapfiles(env), text.as_bytes());
     (o.value, o.diagnostics)
 }
 
@@ -485,22 +829,57 @@ fn first_error_class(diagnostics: &str) -> String {
     "no-error-diagnostic".into()
 }
 
+/// Which occurrences a consistent renaming touches, decided by the reference resolver (not by the
+/// implementation under test): every declaration, and every use whose innermost visible
+/// declaration is a declaration of the program (or would be one but for a function / const
+/// boundary).  Second component: may every declaration get a name of its own?
+fn reference_binding(refr: &reference::Reference) -> (BTreeMap<usize, Option<usize>>, bool) {
+    let mut bound = BTreeMap::new();
+    let mut per_decl_ok = refr.redeclared.is_empty();
+    for &id in refr.decls.keys() { bound.insert(id, Some(id)); }
+    for &id in &refr.undeclared_params { bound.insert(id, Some(id)); }
+    for (&id, u) in &refr.uses {
+        bound.insert(id, match &u.target {
+            Target::Decl(j) => Some(*j),
+            Target::Hidden(j) => { per_decl_ok = false; Some(*j) },
+            Target::Undetermined(c) => { per_decl_ok = false; c.first().copied() },
+            Target::Outside | Target::Qualified => None,
+        });
+    }
+    (bound, per_decl_ok)
+}
+
+/// Is some use bound to a sprite / script / sub name that is also a const of another enum?  Then
+/// the documented enum rule decides (expected enum, else "ambiguous enum const"), and renaming the
+/// file's declaration resolves the ambiguity: not something the property speaks about.
+fn enum_rule_applies(refr: &reference::Reference, env: &Env) -> bool {
+    let face = |d: &reference::Decl, space: reference::Space| matches!(d.kind, DKind::Sprite | DKind::ScriptName) || (d.kind == DKind::Func && space == reference::Space::Var);
+    refr.uses.values().any(|u| match &u.target {
+        Target::Decl(j) => {
+            let d = &refr.decls[j];
+            face(d, u.space) && (env.enums.iter().any(|x| x.1 == u.name) || u.name == "true" || u.name == "false"
+                || refr.decls.values().any(|o| o.id != d.id && o.name == d.name && o.kind != d.kind && matches!(o.kind, DKind::Sprite | DKind::ScriptName)))
+        },
+        _ => false,
+    })
+}
+
 fn rename_compile(format: &str, env: &Sexp, root: &Sexp, seed: u64) -> Sexp {
     let env = parse_env(env);
     let fmt = crate::tc::Format::from_name(format);
-    let prelude = if fmt == crate::tc::Format::Anm { ANM_PRELUDE } else { ECL_PRELUDE };
+    let prelude = prelude_of(fmt);
     let mut rng = Rng::new(seed);
-    // which occurrences are bound is decided by the implementation's own resolver
-    let r0 = render(root, "", &|_, n| n.to_string());
-    let res0 = resolve_impl(&env, &r0);
-    if !matches!(res0.result.head(), Some("ok") | Some("errors")) { return Sexp::app("skip", vec![res0.result]); }
-    let rho = fresh_names(&r0, &mut rng);
+    let refr = reference::resolve(root, &ref_options(&env, Some(fmt)));
+    let (bound_to, per_decl_ok) = reference_binding(&refr);
+    if enum_rule_applies(&refr, &env) { return Sexp::app("skip", vec![Sexp::atom("enum-const-of-two-enums")]); }
+    let binding = Resolved { result: Sexp::atom("reference"), bound_to };
     let t0 = render(root, prelude, &|_, n| n.to_string());
+    let rho = fresh_names(&t0, &mut rng);
     let (b0, d0) = compile_text(fmt, &env, &t0.text);
     let mut both_ok = false;
     for per_decl in [false, true] {
-        if per_decl && (b0.is_none() || res0.result.head() != Some("ok")) { continue; }
-        let t1 = renamed_text(root, prelude, &res0, &rho, per_decl, &r0, fmt == crate::tc::Format::Ecl);
+        if per_decl && (b0.is_none() || !per_decl_ok) { continue; }
+        let t1 = renamed_text(root, prelude, &binding, &rho, per_decl, &t0, false);
         let (b1, d1) = compile_text(fmt, &env, &t1.text);
         match (&b0, &b1) {
             (Some(x), Some(y)) => {
@@ -549,6 +928,10 @@ struct Gen<'a> {
     decls: usize,
     uses: usize,
     feats: std::collections::BTreeSet<&'static str>,
+    /// also: calls with 0-3 arguments against functions with 0-3 parameters (arguments beyond the
+    /// parameter count are never looked at), calls inside enum-typed arguments, `times(x = n)`,
+    /// function declarations without body
+    rich: bool,
 }
 
 #[derive(Copy, Clone, PartialEq)]
@@ -580,7 +963,11 @@ impl Gen<'_> {
                 self.feats.insert("call");
                 let id = self.id(); let n = self.name();
                 let mut v = vec![id, n];
-                if self.rng.chance(2, 3) { v.push(self.expr(ctx, depth - 1, true)); }
+                if self.rich {
+                    let nargs = self.rng.below(4);
+                    if nargs > 1 { self.feats.insert("call-with-several-args"); }
+                    for _ in 0..nargs { v.push(self.expr(ctx, depth - 1, true)); }
+                } else if self.rng.chance(2, 3) { v.push(self.expr(ctx, depth - 1, true)); }
                 Sexp::app("f", v)
             },
             9 if allow_call && ctx == Ctx::Lang => {
@@ -588,6 +975,13 @@ impl Gen<'_> {
                 // argument contains no call (a call would push its own colour)
                 let &(op, color) = self.rng.pick(SIGS);
                 self.feats.insert("enum-colour");
+                if self.rich {
+                    // calls inside the coloured argument (their arguments get the colours of the callee's
+                    // parameters, or keep this one when the callee does not resolve), a second argument
+                    let mut v = vec![Sexp::int(op), Sexp::atom(color), self.expr(ctx, depth - 1, true)];
+                    if self.rng.chance(1, 4) { self.feats.insert("raw-ins-excess-arg"); v.push(self.expr(ctx, depth - 1, true)); }
+                    return Sexp::app("ins", v);
+                }
                 let arg = self.expr(ctx, depth - 1, false);
                 Sexp::app("ins", vec![Sexp::int(op), Sexp::atom(color), arg])
             },
@@ -615,8 +1009,12 @@ impl Gen<'_> {
         self.feats.insert("func");
         let qual = *self.rng.pick(&["plain", "plain", "const", "const", "inline"]);
         let id = self.id(); let name = self.name();
-        let np = 1 + self.rng.below(3);
+        let np = if self.rich { self.rng.below(4) } else { 1 + self.rng.below(3) };
         let params: Vec<Sexp> = (0..np).map(|_| { self.decls += 1; let i = self.id(); let n = self.name(); Sexp::list(vec![i, n]) }).collect();
+        if self.rich && self.rng.chance(1, 6) {
+            self.feats.insert("func-declaration-without-body");
+            return Sexp::app("funcdecl", vec![Sexp::atom(qual), id, name, Sexp::list(params)]);
+        }
         let ctx = if qual == "const" { Ctx::Const } else { Ctx::Lang };
         let mut v = vec![Sexp::atom(qual), id, name, Sexp::list(params)];
         v.extend(self.block(ctx, depth.saturating_sub(1)));
@@ -634,7 +1032,16 @@ impl Gen<'_> {
             11 | 12 if depth > 0 => Sexp::app("block", self.block(ctx, depth - 1)),
             13 if depth > 0 => {
                 self.feats.insert("loop");
-                let kind = *self.rng.pick(&["while", "dowhile", "times"]);
+                let kind = if self.rich { *self.rng.pick(&["while", "dowhile", "times", "timesc"]) } else { *self.rng.pick(&["while", "dowhile", "times"]) };
+                if kind == "timesc" {
+                    self.feats.insert("times-clobber");
+                    self.uses += 1;
+                    let id = self.id(); let n = self.name();
+                    let c = self.expr(ctx, 2, true);
+                    let mut v = vec![Sexp::app("v", vec![id, n]), c];
+                    v.extend(self.block(ctx, depth - 1));
+                    return Sexp::app(kind, v);
+                }
                 if kind == "dowhile" {
                     // ids follow the text: the body precedes the condition
                     let b = self.block(ctx, depth - 1);
@@ -708,6 +1115,28 @@ fn gen_env(rng: &mut Rng, pool: &[&'static str], compile_lang: Option<&'static s
     ])
 }
 
+/// adds an explicit `sigs` section: 900-902 as always; an aliased instruction has one or two
+/// parameters (now and then expecting an enum), or no signature at all
+fn with_sigs(rng: &mut Rng, env: Sexp) -> Sexp {
+    let e = parse_env(&env);
+    let mut sigs = vec![];
+    for &l in LANGS {
+        for &(op, color) in SIGS { sigs.push(Sexp::list(vec![Sexp::atom(l), Sexp::int(op), Sexp::atom(color)])); }
+        let mut seen = vec![];
+        for (_, _, r) in e.ins.iter().filter(|x| x.0 == l) {
+            if seen.contains(r) { continue; }
+            seen.push(*r);
+            if rng.chance(1, 5) { continue; }
+            let mut v = vec![Sexp::atom(l), Sexp::int(*r)];
+            for _ in 0..1 + rng.below(2) { v.push(Sexp::atom(*rng.pick(&["-", "-", "-", "E1", "E2"]))); }
+            sigs.push(Sexp::list(v));
+        }
+    }
+    let mut items = env.as_list().to_vec();
+    items.push(Sexp::app("sigs", sigs));
+    Sexp::list(items)
+}
+
 struct Generated { env: Sexp, root: Sexp, nontrivial: bool, tags: Vec<String> }
 
 fn gen_program(rng: &mut Rng) -> Generated {
@@ -715,7 +1144,9 @@ fn gen_program(rng: &mut Rng) -> Generated {
     match rng.below(6) { 0 => { pool.truncate(2); }, 1 => { pool.truncate(3); }, 2 => { pool.push("PI"); }, _ => {} }
     let env = gen_env(rng, &pool, None);
     let fuel = 4 + rng.below(24) as i32;
-    let mut g = Gen { rng, next_id: 0, pool, fuel, decls: 0, uses: 0, feats: Default::default() };
+    let rich = rng.chance(2, 3);
+    let env = if rich { with_sigs(rng, env) } else { env };
+    let mut g = Gen { rng, next_id: 0, pool, fuel, decls: 0, uses: 0, feats: Default::default(), rich };
     let as_block = g.rng.chance(1, 5);
     let root = if as_block { Sexp::app("blk", g.block(Ctx::Lang, 3)) } else { g.file() };
     let mut tags = vec![if as_block { "root-block".to_string() } else { "root-file".to_string() }];
@@ -744,6 +1175,12 @@ struct VGen<'a> {
     excluded: Vec<String>,
     decls: usize,
     uses: usize,
+    /// collision mode: a const of a function's own top-level block is often named like a parameter
+    collide: bool,
+    /// MSG: no registers, hence no locals, loops or assignments
+    no_locals: bool,
+    /// a const of a function's own top-level block got the name of a parameter
+    const_like_param: bool,
 }
 
 impl VGen<'_> {
@@ -793,7 +1230,15 @@ impl VGen<'_> {
         let n = 1 + self.rng.below(5);
         let n_consts = if self.rng.chance(1, 3) { 1 + self.rng.below(2) } else { 0 };
         let mut const_names = vec![];
-        for _ in 0..n_consts { let nm = self.fresh_decl_name(); self.scopes.last_mut().unwrap().names.push((nm.clone(), Kind::Const)); const_names.push(nm); }
+        let param_names: Vec<String> = self.scopes[self.scopes.len() - 2].names.iter().map(|x| x.0.clone()).collect();
+        for _ in 0..n_consts {
+            let mut nm = self.fresh_decl_name();
+            if self.collide && !param_names.is_empty() && self.rng.chance(1, 2) {
+                let p = self.rng.pick(&param_names).clone();
+                if !const_names.contains(&p) { nm = p; self.const_like_param = true; }
+            }
+            self.scopes.last_mut().unwrap().names.push((nm.clone(), Kind::Const)); const_names.push(nm);
+        }
         let mut const_at: Vec<usize> = (0..n_consts).map(|_| self.rng.below(n + 1)).collect();
         const_at.sort();
         let mut out = vec![];
@@ -824,7 +1269,10 @@ impl VGen<'_> {
     }
     fn stmt(&mut self, depth: u32) -> Sexp {
         self.fuel -= 1;
-        match self.rng.below(16) {
+        let k = self.rng.below(16);
+        // without registers: instruction calls, calls and nested blocks only
+        let k = if self.no_locals && matches!(k, 4..=9 | 11 | 12) { k % 4 } else { k };
+        match k {
             0..=3 => { let e = self.expr(false, 2); Sexp::app("expr", vec![Sexp::app("ins", vec![Sexp::int(902), Sexp::atom("-"), e])]) },
             4 | 5 => { let v = self.var(false, true); let e = self.expr(false, 2); if v.head() == Some("lit") { Sexp::app("expr", vec![Sexp::app("ins", vec![Sexp::int(902), Sexp::atom("-"), e])]) } else { Sexp::app("assign", vec![v, e]) } },
             6..=9 => {
@@ -882,7 +1330,7 @@ fn gen_compilable(rng: &mut Rng, lang: &'static str) -> Generated {
     }
     let fuel = 6 + rng.below(20) as i32;
     let env_enum_names: Vec<String> = e.enums.iter().map(|x| x.1.clone()).collect();
-    let mut g = VGen { rng, next_id: 0, pool, fuel, scopes: vec![], globals, funcs: vec![], excluded: vec![], decls: 0, uses: 0 };
+    let mut g = VGen { rng, next_id: 0, pool, fuel, scopes: vec![], globals, funcs: vec![], excluded: vec![], decls: 0, uses: 0, collide: false, no_locals: false, const_like_param: false };
     // file level: const items (visible everywhere), then scripts (ANM) or subs (ECL)
     g.scopes.push(VScope { names: vec![], barrier: false });
     let n_consts = g.rng.below(3);
@@ -940,6 +1388,139 @@ fn gen_compilable(rng: &mut Rng, lang: &'static str) -> Generated {
     Generated { env, root: Sexp::app("file", items), nontrivial: g.decls >= 2 && g.uses >= 2, tags: vec![] }
 }
 
+/// spellings that mean something without any declaration: builtin consts and the consts of `bool`
+const BUILTIN_NAMES: &[&str] = &["INF", "NAN", "PI", "true", "false"];
+
+/// Programs for the collision search (compile cases only): like `gen_compilable`, but the names
+/// that get declared are also the spellings that already mean something globally -- register
+/// aliases and instruction aliases of the language, consts of mapfile enums, builtin consts -- and
+/// the file declares names of its own kind of global: sprites and named scripts (ANM), subs (ECL).
+/// A const of a function's own top-level block is often named like one of its parameters.
+fn gen_collide(rng: &mut Rng, lang: &'static str) -> Generated {
+    let mut pool: Vec<&'static str> = POOL.to_vec();
+    if rng.chance(1, 4) { pool.truncate(3); }
+    let mut extra: Vec<&'static str> = BUILTIN_NAMES.to_vec();
+    rng.shuffle(&mut extra);
+    let n_extra = rng.below(3);
+    pool.extend(&extra[..n_extra]);
+    // environment: every plain pool name may be a register alias, an instruction alias, an enum const
+    let alias_langs: Vec<&'static str> = if lang == "msg" { vec!["ecl", "anm", "std", "msg"] } else { LANGS.to_vec() };
+    let (mut reg, mut ins, mut enums) = (vec![], vec![], vec![]);
+    for &n in &pool {
+        if BUILTIN_NAMES.contains(&n) { continue; }
+        for (li, &l) in alias_langs.iter().enumerate() {
+            if l != "msg" && rng.chance(1, 3) { reg.push(Sexp::list(vec![Sexp::atom(l), Sexp::atom(n), Sexp::int(10000 + rng.below(4) as i64)])); }
+            if rng.chance(1, 4) { ins.push(Sexp::list(vec![Sexp::atom(l), Sexp::atom(n), Sexp::int(if l == "msg" { 100 } else { 950 + 10 * li as i64 } + rng.below(3) as i64)])); }
+        }
+        if rng.chance(1, 6) { enums.push(Sexp::list(vec![Sexp::atom("E1"), Sexp::atom(n)])); }
+        if rng.chance(1, 8) { enums.push(Sexp::list(vec![Sexp::atom("E2"), Sexp::atom(n)])); }
+    }
+    rng.shuffle(&mut reg);
+    let env = Sexp::app("env", vec![
+        Sexp::app("langs", alias_langs.iter().map(|l| Sexp::atom(*l)).collect()),
+        Sexp::app("funcs", vec![Sexp::atom(lang)]), Sexp::app("scripts", vec![Sexp::atom(lang)]),
+        Sexp::app("reg", reg), Sexp::app("ins", ins),
+        Sexp::app("enums", ENUMS.iter().map(|e| Sexp::atom(*e)).collect()), Sexp::app("enum", enums),
+        Sexp::app("builtin", vec![Sexp::atom("NAN"), Sexp::atom("INF"), Sexp::atom("PI")]),
+    ]);
+    let e = parse_env(&env);
+    // names that are a const of some enum without the file's help (an equally named sprite / script / sub is ambiguous)
+    let mut enum_names: Vec<String> = e.enums.iter().map(|x| x.1.clone()).collect();
+    enum_names.push("true".into()); enum_names.push("false".into());
+    let mut globals: Vec<(String, Kind)> = vec![];
+    for n in &pool {
+        let owners = enum_names.iter().filter(|x| x == n).count();
+        if owners == 1 { globals.push((n.to_string(), Kind::Enum)); }
+        else if owners == 0 && e.reg.iter().any(|x| x.0 == lang && &x.1 == n) { globals.push((n.to_string(), Kind::Reg)); }
+    }
+    let fuel = 6 + rng.below(20) as i32;
+    let mut g = VGen { rng, next_id: 0, pool, fuel, scopes: vec![], globals, funcs: vec![], excluded: vec![], decls: 0, uses: 0, collide: true, no_locals: lang == "msg", const_like_param: false };
+    g.scopes.push(VScope { names: vec![], barrier: false });
+    let n_consts = g.rng.below(3);
+    let n_bodies = 1 + g.rng.below(3);
+    let mut const_names = vec![];
+    for _ in 0..n_consts { let nm = g.fresh_decl_name(); g.scopes.last_mut().unwrap().names.push((nm.clone(), Kind::Const)); const_names.push(nm); }
+    // names the file gives to its own globals: distinct (a duplicate is "duplicate script"), drawn from the pool
+    let mut fpool: Vec<String> = g.pool.iter().map(|s| s.to_string()).collect();
+    g.rng.shuffle(&mut fpool);
+    let take = |g: &mut VGen, i: usize| -> String { if g.rng.chance(1, 4) { format!("n{i}") } else { fpool[i % fpool.len()].clone() } };
+    // (body index -> name); ANM: half of the scripts are named; ECL: every sub; MSG: none (script names are no consts there)
+    let body_names: Vec<Option<String>> = (0..n_bodies).map(|i| match lang { "ecl" => Some(take(&mut g, i)), "anm" => if g.rng.chance(1, 2) { Some(take(&mut g, i)) } else { None }, _ => None }).collect();
+    let n_sprites = if lang == "anm" { g.rng.below(3) } else { 0 };
+    let sprite_names: Vec<String> = (0..n_sprites).map(|i| take(&mut g, n_bodies + i)).collect();
+    let arities: Vec<usize> = (0..n_bodies).map(|_| g.rng.below(3)).collect();
+    let mut file_names: Vec<String> = body_names.iter().flatten().cloned().chain(sprite_names.iter().cloned()).collect();
+    file_names.sort(); file_names.dedup();
+    // a sprite / script / sub name is an enum const: it shadows a register alias, and is ambiguous
+    // with an equally named const of another enum
+    let all_file_names: Vec<String> = body_names.iter().flatten().cloned().chain(sprite_names.iter().cloned()).collect();
+    for f in &file_names {
+        g.globals.retain(|x| &x.0 != f);
+        let twice = all_file_names.iter().filter(|x| *x == f).count() > 1;
+        if !enum_names.contains(f) && !twice { g.globals.push((f.clone(), Kind::Enum)); }
+    }
+    if lang == "ecl" { for (i, f) in body_names.iter().enumerate() { let f = f.clone().unwrap(); if !g.funcs.iter().any(|x| x.0 == f) { g.funcs.push((f, arities[i])); } } }
+    // instruction aliases of the language can be called unless a sub has that name
+    for (l, n, _) in &e.ins { if l == lang && !g.funcs.iter().any(|x| &x.0 == n) { g.funcs.push((n.clone(), 1)); } }
+    let mut order: Vec<usize> = (0..n_consts + n_bodies + if n_sprites > 0 { 1 } else { 0 }).collect();
+    g.rng.shuffle(&mut order);
+    let mut items = vec![];
+    for k in order {
+        if k < n_consts {
+            g.decls += 1;
+            let id = g.id();
+            g.scopes.push(VScope { names: vec![], barrier: true });
+            g.excluded = const_names[k..].to_vec();
+            let e = if g.rng.chance(1, 2) { Sexp::app("lit", vec![]) } else { g.expr(true, 1) };
+            g.excluded.clear();
+            g.scopes.pop();
+            items.push(Sexp::app("const", vec![Sexp::list(vec![id, Sexp::atom(const_names[k].clone()), e])]));
+        } else if k == n_consts + n_bodies {
+            let sp: Vec<Sexp> = sprite_names.iter().map(|n| { g.decls += 1; let id = g.id(); Sexp::list(vec![id, Sexp::atom(n.clone())]) }).collect();
+            items.push(Sexp::app("sprites", sp));
+        } else if lang == "ecl" {
+            let i = k - n_consts;
+            g.decls += 1;
+            let id = g.id();
+            let mut params = vec![];
+            let mut pnames = vec![];
+            for _ in 0..arities[i] {
+                g.decls += 1;
+                let pid = g.id();
+                let mut names: Vec<String> = g.pool.iter().map(|s| s.to_string()).collect();
+                g.rng.shuffle(&mut names);
+                let pn = names.into_iter().find(|n| !pnames.contains(n) || g.rng.chance(1, 12)).unwrap();
+                pnames.push(pn.clone());
+                params.push(Sexp::list(vec![pid, Sexp::atom(pn)]));
+            }
+            let mut v = vec![Sexp::atom("plain"), id, Sexp::atom(body_names[i].clone().unwrap()), Sexp::list(params)];
+            v.extend(g.block(2, true, pnames));
+            items.push(Sexp::app("func", v));
+        } else {
+            let i = k - n_consts;
+            match &body_names[i] {
+                Some(n) => { g.decls += 1; let id = g.id(); let mut v = vec![id, Sexp::atom(n.clone())]; v.extend(g.block(3, false, vec![])); items.push(Sexp::app("nscript", v)); },
+                None => items.push(Sexp::app("script", g.block(3, false, vec![]))),
+            }
+        }
+    }
+    // which collisions the program really has (for the evidence)
+    let root = Sexp::app("file", items);
+    let mut tags = std::collections::BTreeSet::new();
+    if g.const_like_param { tags.insert("collision:body-const-spelled-like-parameter".to_string()); }
+    let refr = reference::resolve(&root, &reference::Options { funcs_lang: lang.to_string(), scripts_lang: lang.to_string(), subs_are_consts: lang == "ecl" });
+    for d in refr.decls.values() {
+        let k = d.kind.name();
+        if e.reg.iter().any(|x| x.0 == lang && x.1 == d.name) { tags.insert(format!("collision:{k}-spelled-like-register-alias")); }
+        if e.ins.iter().any(|x| x.0 == lang && x.1 == d.name) { tags.insert(format!("collision:{k}-spelled-like-instruction-alias")); }
+        if e.enums.iter().any(|x| x.1 == d.name) { tags.insert(format!("collision:{k}-spelled-like-mapfile-enum-const")); }
+        if BUILTIN_NAMES.contains(&d.name.as_str()) { tags.insert(format!("collision:{k}-spelled-like-builtin-const")); }
+        if refr.decls.values().any(|o| o.id != d.id && o.name == d.name && matches!(o.kind, DKind::Sprite | DKind::ScriptName) && !matches!(d.kind, DKind::Sprite | DKind::ScriptName)) { tags.insert(format!("collision:{k}-spelled-like-sprite-or-script")); }
+        if lang == "ecl" && d.kind != DKind::Func && refr.decls.values().any(|o| o.kind == DKind::Func && o.name == d.name) { tags.insert(format!("collision:{k}-spelled-like-sub")); }
+    }
+    Generated { env, root, nontrivial: g.decls >= 2 && g.uses >= 2, tags: tags.into_iter().collect() }
+}
+
 /// one call with more arguments than the callee has parameters, the excess ones undeclared names
 fn gen_excess_args(rng: &mut Rng) -> (Sexp, Sexp) {
     let env = gen_env(rng, &[], Some("ecl"));
@@ -986,6 +1567,12 @@ fn fixed_cases() -> Vec<(&'static str, &'static str)> {
         ("forward-reference", "(file (script (expr (f 0 g (v 1 K))) (block (expr (f 2 g (v 3 K))) (const (4 K (lit))) (func const 5 g ((6 x)) (ret (v 7 x))))) (const (8 K (lit))) (func const 9 g ((10 y)) (ret (v 11 K))))"),
         ("qualified-enum-const", "(file (const (0 c (q 1 E2 c))) (script (decl (2 d (q 3 E1 d))) (expr (add (q 4 E1 d) (q 5 E2 d))) (expr (add (q 6 E3 c) (q 7 E1 a))) (expr (v 8 d))))"),
         ("builtin-shadow", "(file (const (0 k (v 1 PI))) (script (decl (2 PI (v 3 PI))) (expr (v 4 PI))))"),
+        // a const of the function's own top-level block shadows the parameter, in the whole body
+        ("param-vs-body-const", "(file (func plain 0 f ((1 p) (2 q)) (expr (v 3 p)) (const (4 p (lit))) (block (expr (add (v 5 p) (v 6 q))))))"),
+        ("times-clobber", "(file (script (decl (0 q (lit))) (timesc (v 1 q) (v 2 q) (decl (3 q (v 4 q))) (expr (v 5 q))) (timesc (v 6 nowhere) (lit))))"),
+        ("func-declaration-without-body", "(file (funcdecl plain 0 g ((1 p) (2 p))) (const (3 p (lit))) (script (expr (f 4 g (v 5 p) (v 6 p) (v 7 p)))) (funcdecl plain 8 g ()))"),
+        ("args-beyond-parameter-count", "(file (func plain 0 f ((1 p)) (expr (f 2 f (v 3 p) (v 4 nowhere) (f 5 nowhere (v 6 p))))) (script (expr (f 7 f)) (expr (f 8 b (v 9 a) (v 10 a))) (expr (f 11 nowhere (v 12 a) (v 13 zz))) (expr (ins 902 - (v 14 a) (v 15 a)))))"),
+        ("colour-through-calls", "(file (func plain 0 f ((1 p))) (script (expr (ins 900 E1 (f 2 f (v 3 c)))) (expr (ins 900 E1 (f 4 nowhere (v 5 c)))) (expr (ins 901 E2 (add (v 6 c) (f 7 a (v 8 c)))))))"),
     ];
     progs.into_iter().map(|(t, p)| (t, Box::leak(format!("(resolve {env} {p})").into_boxed_str()) as &'static str)).collect()
 }
@@ -993,12 +1580,12 @@ fn fixed_cases() -> Vec<(&'static str, &'static str)> {
 impl Prop for C10 {
     fn id(&self) -> &'static str { "C10" }
     fn relation(&self) -> &'static str {
-        "for every identifier occurrence of the program (in text order): the definition it resolves to after parse + assign_languages + resolve_names (ctx.resolutions: declaration occurrence / register alias (language, id) / instruction alias (language, opcode) / enum const (enum, name) / builtin const), or the class of the diagnostic reported at it (unknown, cannot use local|parameter from outside function|const, ambiguous enum const), plus every redefinition diagnostic with its noun  ==  Lean `Scope.resolveRibs` rendered the same way"
+        "two relations, named by the head of the case.  [resolve] for every identifier occurrence of the program (in text order): the definition it resolves to after parse + assign_languages + resolve_names (ctx.resolutions: declaration occurrence / register alias (language, id) / instruction alias (language, opcode) / enum const (enum, name) / builtin const), or the class of the diagnostic reported at it (unknown, cannot use local|parameter from outside function|const, ambiguous enum const), or `unresolved-without-diagnostic` (an identifier inside a call argument beyond the callee's parameter count, a parameter name of a declaration without body), plus every redefinition diagnostic with its noun  ==  Lean `Scope.resolveRibs` rendered the same way.  [ribs] the initial rib stacks: `Defs::initial_ribs()` split by namespace as `RibStacks::from_iter` does, bottom first: kind of every rib (mapfile rib of a language / builtin consts / enum consts), its position relative to the others, and what it holds for every name of the environment (empty mapfile ribs left out, neighbouring mapfile ribs in language order)  ==  Lean `ribStacksFromIter (Globals.initialRibsVec g)` (theorems initial_ribs_stacks, global_var_precedence, global_func_precedence depend on exactly this order)"
     }
     fn rule(&self) -> &'static str {
-        "scope trees (files of const items / const, inline and plain functions with 1-3 parameters / scripts, or a bare block; blocks, loop, while, do-while, times, if/else-if/else chains, local declarations with several declarators, const items and nested functions inside blocks, expressions with variable uses, calls with 0-1 arguments, raw instructions with enum-typed parameters) with all identifiers drawn from a pool of 2-5 names (a b c d PI), qualified enum consts `E.x` (E1, E2, bool, undeclared E3), over a random environment (register aliases, instruction aliases per language ecl/anm/std incl. same name in several languages and twice in one, enum consts in two enums incl. ambiguous ones, builtin consts); languages of functions/scripts varied; plus the shapes of src/resolve/tests.rs by hand; non-trivial = at least two declarations and two uses; distinct by case text"
+        "scope trees (files of const items / const, inline and plain functions with 0-3 parameters / function declarations without body / scripts, or a bare block; blocks, loop, while, do-while, times, times(x = n), if/else-if/else chains, local declarations with several declarators, const items and nested functions inside blocks, expressions with variable uses, calls with 0-3 arguments incl. more arguments than the callee has parameters, raw instructions with enum-typed parameters and calls inside those arguments) with all identifiers drawn from a pool of 2-5 names (a b c d PI), qualified enum consts `E.x` (E1, E2, bool, undeclared E3), over a random environment (register aliases, instruction aliases per language ecl/anm/std incl. same name in several languages and twice in one, aliased instructions with one or two parameters (some enum-typed) or without signature, enum consts in two enums incl. ambiguous ones, builtin consts); languages of functions/scripts varied; plus the shapes of src/resolve/tests.rs and of the property text by hand; search: the same trees against an independent reference resolver (c10_ref.rs: innermost visible declaration by regions), and compilable ANM TH12 / old ECL TH07 / MSG TH12 programs whose declarations (locals, consts, parameters, subs, sprites, named scripts) are spelled like register aliases / instruction aliases / mapfile enum consts / builtin consts / each other, with a const of a function's own block named like a parameter: resolution inside the real compile against the reference, compiled bytes before and after renaming the declarations (and their uses under the reference resolver) to fresh names; non-trivial = at least two declarations and two uses; distinct by case text"
     }
-    fn theorems(&self) -> &'static [&'static str] { &["TruthModel.C10.ribs_eq_spec", "TruthModel.C10.ribs_eq_spec_block", "TruthModel.C10.rename_invariant", "TruthModel.C10.rename_invariant_block", "TruthModel.C10.each_ident_visited_once", "TruthModel.C10.each_ident_resolved_once"] }
+    fn theorems(&self) -> &'static [&'static str] { &["TruthModel.C10.ribs_eq_spec", "TruthModel.C10.ribs_eq_spec_block", "TruthModel.C10.rename_invariant", "TruthModel.C10.rename_invariant_block", "TruthModel.C10.each_ident_visited_once", "TruthModel.C10.each_ident_resolved_once", "TruthModel.C10.initial_ribs_stacks", "TruthModel.C10.global_var_precedence", "TruthModel.C10.global_func_precedence", "TruthModel.C10.func_body_stacks"] }
 
     fn gen(&self, tier: Tier, rng: &mut Rng) -> Vec<Case> {
         let scale = if tier == Tier::Quick { 2 } else { 30 };
@@ -1022,12 +1609,41 @@ impl Prop for C10 {
             let seed = rng.next_u64() >> 12;
             out.push(Case::search(Sexp::app("rename-resolve", vec![g.env, g.root, Sexp::int(seed as i64)])).tag("rename-resolve").trivial(!g.nontrivial));
         }
-        for (lang, n) in [("anm", 400), ("ecl", 400)] {
-            for _ in 0..n * scale {
-                let g = gen_compilable(rng, lang);
+        for (lang, n) in [("anm", 400), ("ecl", 400), ("msg", 100)] {
+            for k in 0..n * scale {
+                // every second program declares the spellings that already mean something globally
+                let collide = lang == "msg" || k % 2 == 1;
+                let g = if collide { gen_collide(rng, lang) } else { gen_compilable(rng, lang) };
                 let seed = rng.next_u64() >> 12;
-                out.push(Case::search(Sexp::app("rename-compile", vec![Sexp::atom(lang), g.env, g.root, Sexp::int(seed as i64)])).tag(format!("rename-compile-{lang}")).trivial(!g.nontrivial));
+                let mut c = Case::search(Sexp::app("rename-compile", vec![Sexp::atom(lang), g.env, g.root, Sexp::int(seed as i64)])).tag(format!("rename-compile-{lang}{}", if collide { "-colliding-names" } else { "" })).trivial(!g.nontrivial);
+                for t in g.tags { c = c.tag(t); }
+                out.push(c);
             }
+        }
+        // the real partition against the independent reference resolver
+        for k in 0..500 * scale {
+            let g = if k % 3 == 0 { gen_compilable(rng, if k % 2 == 0 { "anm" } else { "ecl" }) } else { gen_program(rng) };
+            out.push(Case::search(Sexp::app("ref-resolve", vec![g.env, g.root])).tag("ref-resolve").trivial(!g.nontrivial));
+        }
+        for (lang, n) in [("anm", 150), ("ecl", 150), ("msg", 50)] {
+            for _ in 0..n * scale {
+                let g = gen_collide(rng, lang);
+                let mut c = Case::search(Sexp::app("ref-compile", vec![Sexp::atom(lang), g.env, g.root])).tag(format!("ref-compile-{lang}")).trivial(!g.nontrivial);
+                for t in g.tags { c = c.tag(t); }
+                out.push(c);
+            }
+        }
+        // scope-oblivious trees through the front ends of the compilers as well (they rarely compile; name
+        // resolution runs all the same)
+        for k in 0..150 * scale {
+            let g = gen_program(rng);
+            if g.root.head() != Some("file") { continue; }
+            let lang = ["anm", "ecl", "msg"][k % 3];
+            out.push(Case::search(Sexp::app("ref-compile", vec![Sexp::atom(lang), g.env, g.root])).tag(format!("ref-compile-{lang}-scope-oblivious")).trivial(!g.nontrivial));
+        }
+        for _ in 0..20 * scale {
+            let pool: Vec<&'static str> = POOL.to_vec();
+            out.push(Case::corr(Sexp::app("ribs", vec![gen_env(rng, &pool, None)])).tag("initial-ribs"));
         }
         for _ in 0..40 * scale {
             let (env, root) = gen_excess_args(rng);
@@ -1043,6 +1659,9 @@ impl Prop for C10 {
             Some("rename-resolve") => rename_resolve(&a[0], &a[1], a[2].as_i64() as u64),
             Some("rename-compile") => rename_compile(a[0].as_atom(), &a[1], &a[2], a[3].as_i64() as u64),
             Some("excess-args") => excess_args(&a[0], &a[1]),
+            Some("ribs") => ribs_case(&a[0]),
+            Some("ref-resolve") => ref_resolve(&a[0], &a[1]),
+            Some("ref-compile") => ref_compile(a[0].as_atom(), &a[1], &a[2]),
             _ => Sexp::atom("bad-case"),
         }
     }
@@ -1053,11 +1672,13 @@ impl Prop for C10 {
         let mut out = vec![];
         if case.head() == Some("resolve") {
             let a = case.args();
+            out.push(Case::search(Sexp::app("ref-resolve", vec![a[0].clone(), a[1].clone()])));
             for _ in 0..4 {
                 let seed = rng.next_u64() >> 12;
                 out.push(Case::search(Sexp::app("rename-resolve", vec![a[0].clone(), a[1].clone(), Sexp::int(seed as i64)])));
                 if a[1].head() == Some("file") {
                     for lang in ["anm", "ecl"] {
+                        out.push(Case::search(Sexp::app("ref-compile", vec![Sexp::atom(lang), a[0].clone(), a[1].clone()])));
                         out.push(Case::search(Sexp::app("rename-compile", vec![Sexp::atom(lang), a[0].clone(), a[1].clone(), Sexp::int(seed as i64)])));
                     }
                 }
